@@ -85,3 +85,13 @@ Proof.
         -- apply st_ok_nonzero; [reflexivity|]. intros [|[|i]]; simpl; lia.
   - vm_compute. eexists. split; reflexivity.
 Qed.
+
+(** the hypotheses of the pointer theorem ([viterbi_typed]) on the first pair: the run does not
+    fail, the only output cell has a backing element, the pointer is computed, and the Boolean
+    addition is selective *)
+Example viterbi_typed_ex :
+  exists r, einsum_run bool_ops Bool.eqb false 10 [ex_a; ex_b] [[0]; [0]] [] = Ok r /\ er_failed r = false /\
+            index_list (er_outv r) [] [] = IOk [] /\
+            viterbi_ptr_model bool_ops (fun x y => implb x y) r [] [] = Ok [1] /\
+            (forall a b, Semiring.add bool_ops a b = if implb a b then b else a).
+Proof. vm_compute. eexists. repeat split; try reflexivity. intros [|] [|]; reflexivity. Qed.
